@@ -15,7 +15,8 @@
                          taken as a hypothesis here, and proved for the example.)  vs_of_ParOK (RunProofs.v): with C06's ParOK for
                          the parity par0 that sync wrote, vs p can be taken as the vector level 0 of par0 holds at p.
      no_larger c fs      no file on the disks is larger than recorded (missing, truncated, corrupted files are all allowed).
-                         Growth is excluded: it is the OPEN finding F-C01-grown-file-mtime-not-restored (witness below).
+                         Growth is excluded from the run theorems; it is handled by the tool and the model (truncation, FIXED,
+                         time-stamp restored since 993feac): step-level statements 4a / 4b and the computed example below.
      recoverable hashf padz bs nlev nosearch c bm fs par vs      for EVERY stripe p < bm of the damaged array (fs, par):
                          the collision-freedom side conditions of C01_fix_step_restores (a block read / reconstructed / fetched
                          that passes the hash test of a slot is the recorded block; junk never passes) and
@@ -147,13 +148,48 @@ Example C01_example_fix_run_no_blocks :
 Proof. exact rx_fix_no_blocks. Qed.
 Print Assumptions C01_example_fix_run_no_blocks.
 
-(* OPEN finding F-C01-grown-file-mtime-not-restored, the case excluded by no_larger: a file that grew is cut back to its recorded
-   size and content by fix, exit status 0, but keeps the time of the truncation (999) instead of the recorded time-stamp (100) *)
-Example C01_grown_file_mtime_not_restored_witness :
+(* Files LARGER than recorded (excluded from the run theorems above by no_larger; finding F-C01-grown-file-mtime-not-restored,
+   repaired by 993feac: the truncation now flags the file FIXED).  What is proved for them, at the level of the step:
+   4a. the first open of a grown file in a fix run cuts it back to its recorded size, reports Size error + Fixed size, counts one
+       error recovered, and sets FIXED; nothing else moves (other files, other flags, parity, unrecoverable count);
+   4b. at the last block of a file flagged FIXED (and not DAMAGED) file_post gives the file its recorded time-stamp back (when no
+       other file of the disk has the same size and time-stamp) and keeps FIXED; a file not flagged FIXED is not touched.
+   From the first open on, the file has its recorded size, so every later step sees it under the hypotheses of
+   C01_fix_step_restores (not larger than recorded); the whole-run statements keep no_larger: lifting 4a through the data
+   phase invariant of Fix/StripeProofs.v (dinv) is not done.  The example below computes the whole run on a grown file. *)
+Theorem C01_fix_open_truncates_grown_file :
+  forall (bs : N) (nlev : nat) (newino : nat -> N -> N) (now : Z) (o : copts) (pos j : nat) (f : cfile) (s : rstate) (g : fsfile),
+    plain nlev o -> co_fix o = true -> fs_find (r_fs s) j (cf_name f) = Some g -> (cf_size f < ff_size g)%N ->
+    fl_opened (get_fl (r_flags s) (j, cf_name f)) = false ->
+    exists s4, open_step bs newino now o pos j f s = Some s4
+      /\ r_fs s4 = fs_put (r_fs s) j (mkFF (cf_name f) (cf_size f) now 0 (ff_inode g) (firstn (nblocks bs (cf_size f)) (ff_blocks g)))
+      /\ r_tags s4 = r_tags s ++ [tg K_ERR_SIZE [pos; j] [cf_name f]; tg K_FIXED_SIZE [pos; j] [cf_name f]]
+      /\ r_err s4 = r_err s + 1 /\ r_rec s4 = r_rec s + 1 /\ r_unrec s4 = r_unrec s /\ r_par s4 = r_par s
+      /\ fl_fixed (get_fl (r_flags s4) (j, cf_name f)) = true /\ fl_opened (get_fl (r_flags s4) (j, cf_name f)) = true
+      /\ fl_damaged (get_fl (r_flags s4) (j, cf_name f)) = fl_damaged (get_fl (r_flags s) (j, cf_name f))
+      /\ (forall k', k' <> (j, cf_name f) -> get_fl (r_flags s4) k' = get_fl (r_flags s) k').
+Proof. intros bs nlev newino now. exact (open_larger_fix bs nlev newino now). Qed.
+Print Assumptions C01_fix_open_truncates_grown_file.
+
+Theorem C01_fix_post_restores_stamp :
+  forall (nlev : nat) (o : copts) (c : content) (pos : nat) (s : rstate) (j : nat) (f : cfile) (idx : nat) (b : fblock),
+    plain nlev o -> co_fix o = true -> slot_of c pos j = SFile f idx b -> fl_damaged (get_fl (r_flags s) (j, cf_name f)) = false ->
+    fl_fixed (get_fl (r_flags (file_post o c pos s j)) (j, cf_name f)) = fl_fixed (get_fl (r_flags s) (j, cf_name f))
+    /\ fl_damaged (get_fl (r_flags (file_post o c pos s j)) (j, cf_name f)) = false
+    /\ (fl_fixed (get_fl (r_flags s) (j, cf_name f)) = false -> fs_find (r_fs (file_post o c pos s j)) j (cf_name f) = fs_find (r_fs s) j (cf_name f))
+    /\ (uniq_stamp c j f -> S idx = length (cf_blocks f) -> fl_fixed (get_fl (r_flags s) (j, cf_name f)) = true ->
+        forall g, fs_find (r_fs s) j (cf_name f) = Some g -> fs_find (r_fs (file_post o c pos s j)) j (cf_name f) = Some (restamp f g)).
+Proof. exact file_post_at. Qed.
+Print Assumptions C01_fix_post_restores_stamp.
+
+Example C01_example_grown_file_restored :
   let fs := [Some [mkFF 1 2048 200 0 1 [11; 55]%N]; Some [mkFF 2 1024 100 0 2 [12]%N]] in
   let out := check_run x_hashf x_padz x_truncf x_bs 2 false x_newino 999 x_fix x_c x_par_ok fs [] (seq 0 1) in
+  let out' := check_run x_hashf x_padz x_truncf x_bs 2 false x_newino 999 x_check x_c (r_par (out_st out)) (r_fs (out_st out)) [] (seq 0 1) in
   ~ no_larger x_c fs
-  /\ fs_find (r_fs (out_st out)) 0 1 = Some (mkFF 1 1024 999 0 1 [11%N])
-  /\ out_fail out = false /\ map fst (r_tags (out_st out)) = [K_ERR_SIZE; K_FIXED_SIZE].
-Proof. exact rx_grown_file_mtime_not_restored. Qed.
-Print Assumptions C01_grown_file_mtime_not_restored_witness.
+  /\ r_fs (out_st out) = x_fs_ok /\ r_par (out_st out) = x_par_ok
+  /\ r_tags (out_st out) = [(K_ERR_SIZE, [0; 0; 1]%N); (K_FIXED_SIZE, [0; 0; 1]%N); (K_ST_RECOVERED, [0; 1]%N)]
+  /\ out_fail out = false /\ r_err (out_st out) = 1 /\ r_rec (out_st out) = 1 /\ r_unrec (out_st out) = 0
+  /\ r_tags (out_st out') = [] /\ out_fail out' = false.
+Proof. exact rx_grown_file_restored. Qed.
+Print Assumptions C01_example_grown_file_restored.
